@@ -6,17 +6,23 @@
 # 1 = VIOLATION printed, 2 = the working tree does not build, 3 = harness error.
 set -u
 cd "$(dirname "$0")"
-export VERIF_ROOT="$PWD"
+SRC_ROOT="$PWD"
+# evidence/ and replays/ go to $VERIF_OUT when set (seed tests), else next to this script
+export VERIF_ROOT="${VERIF_OUT:-$PWD}"
 . ./env.sh
 SCR=$(mktemp -d "${TMPDIR:-/tmp}/verif-run.XXXXXX") || exit 3
 trap 'rm -rf "$SCR"' EXIT
 export VERIF_SCRATCH="$SCR"
-( cd harness && go build -o "$SCR/vrewrite" ./cmd/vrewrite ) || { echo "harness build failed (vrewrite)"; exit 3; }
-"$SCR/vrewrite" -repo /repo -out "$SCR/ov" -sched "$VERIF_ROOT/harness/ord/verifsched" >"$SCR/vrewrite.log" 2>&1 || { cat "$SCR/vrewrite.log"; echo "the working tree of /repo does not load/build"; exit 2; }
+REPO="${VERIF_REPO:-/repo}"
+export VERIF_REPO="$REPO"
+# the harness module replaces yaccgo by $REPO: a scratch go.mod keeps harness/go.mod untouched
+sed "s#=> /repo#=> $REPO#" harness/go.mod > "$SCR/go.mod"; cp harness/go.sum "$SCR/go.sum"
+( cd harness && go build -modfile="$SCR/go.mod" -o "$SCR/vrewrite" ./cmd/vrewrite ) || { echo "harness build failed (vrewrite)"; exit 3; }
+"$SCR/vrewrite" -repo "$REPO" -out "$SCR/ov" -sched "$SRC_ROOT/harness/ord/verifsched" >"$SCR/vrewrite.log" 2>&1 || { cat "$SCR/vrewrite.log"; echo "the working tree of $REPO does not load/build"; exit 2; }
 export VERIF_OVERLAY="$SCR/ov/overlay.json"
-( cd harness && go build -tags verif -overlay "$VERIF_OVERLAY" -o "$SCR/vcheck" ./cmd/vcheck ) >"$SCR/build.log" 2>&1 || {
+( cd harness && go build -modfile="$SCR/go.mod" -tags verif -overlay "$VERIF_OVERLAY" -o "$SCR/vcheck" ./cmd/vcheck ) >"$SCR/build.log" 2>&1 || {
   cat "$SCR/build.log"
-  if grep -q '^/repo\|acekingke/yaccgo' "$SCR/build.log" && ! grep -q 'verifharness' "$SCR/build.log"; then echo "the working tree of /repo does not build"; exit 2; fi
+  if grep -q "^$REPO\|acekingke/yaccgo" "$SCR/build.log" && ! grep -q 'verifharness' "$SCR/build.log"; then echo "the working tree of /repo does not build"; exit 2; fi
   echo "harness build failed"; exit 3; }
 if [ "$1" = replay ]; then
   "$SCR/vcheck" replay "$2"; exit $?
